@@ -6,6 +6,7 @@ import (
 	"os"
 	"strings"
 	"time"
+	"unicode/utf8"
 
 	textwire "github.com/textwire/textwire/v2"
 	"github.com/textwire/textwire/v2/config"
@@ -242,6 +243,48 @@ func init() {
 			secs = append(secs, seqSections("response-literal-", escapeAtoms, 2, func(c *core.Ctx, l string) { runResponseLiteral(c, l) })...)
 			// template-tree contexts: insert argument, insert block, component argument, slot body
 			secs = append(secs, seqSections("tree-literal-", escapeAtoms, kt, func(c *core.Ctx, l string) { runTreeLiteral(c, l) })...)
+			// long literals (1 KiB .. 4 MiB) and many literals in one template
+			litSizes := []int{1 << 10, 4095, 4096, 4097, 65535, 65536, 65537, 1 << 20, 4 << 20}
+			secs = append(secs, core.Section{Name: "long-and-many-literals", Exhaustive: true, N: len(litSizes) + 4,
+				Run: func(c *core.Ctx, i int) {
+					esc := strings.NewReplacer("&", "&amp;", "<", "&lt;", ">", "&gt;")
+					if i >= len(litSizes) {
+						// 16 / 64 / 257 / 1000 different literals, printed, stored and raw
+						n := []int{16, 64, 257, 1000}[i-len(litSizes)]
+						var src, want strings.Builder
+						for k := 0; k < n; k++ {
+							lit := fmt.Sprintf("<i%d>&'%d';&lt;", k, k)
+							fmt.Fprintf(&src, "{{ \"%s\" }}|{{ v%d = \"%s\" }}{{ v%d.raw() }}{{ v%d }}\n", lit, k, lit, k, k)
+							fmt.Fprintf(&want, "%s|%s%s\n", esc.Replace(lit), lit, esc.Replace(lit))
+						}
+						c.Input(map[string]any{"literals": n})
+						got := evalString(c, src.String(), nil)
+						c.Nontrivial(fmt.Sprint("many-literals", n))
+						if !got.Panicked && (got.Err != nil || got.Out != want.String()) {
+							c.Violation("literal:many", fmt.Sprintf("a template with %d literals rendered %s, want %q", n, clipS(got.Describe(), 300), clipS(want.String(), 300)), map[string]any{"literals": n})
+						}
+						return
+					}
+					size := litSizes[i]
+					unit := "a<b>&c;' é中 &amp; "
+					lit := strings.Repeat(unit, size/len(unit)+1)[:size]
+					for !utf8.ValidString(lit) {
+						lit = lit[:len(lit)-1]
+					}
+					c.Input(map[string]any{"literal_bytes": len(lit)})
+					c.Nontrivial(fmt.Sprint("long-literal", size))
+					for _, tc := range [][2]string{
+						{"<{{ \"" + lit + "\" }}>", "<" + esc.Replace(lit) + ">"},
+						{"{{ s = \"" + lit + "\" }}<{{ s.raw() }}>", "<" + lit + ">"},
+						{"<{{ \"x\" + \"" + lit + "\" + \"<\" }}>", "<x" + esc.Replace(lit) + "&lt;>"},
+						{"<{{ [\"" + lit + "\"][0].len() }}>", "<" + fmt.Sprint(utf8.RuneCountInString(esc.Replace(lit))) + ">"},
+					} {
+						got := evalString(c, tc[0], nil)
+						if !got.Panicked && (got.Err != nil || got.Out != tc[1]) {
+							c.Violation("literal:long", fmt.Sprintf("a literal of %d bytes in %q rendered %s (%d bytes), want %d bytes", len(lit), clipS(tc[0], 40), clipS(got.Describe(), 200), len(got.Out), len(tc[1])), map[string]any{"literal_bytes": len(lit)})
+						}
+					}
+				}})
 			return secs
 		},
 	})
